@@ -25,7 +25,7 @@ TIMEOUT = {"quick": 600, "thorough": 3000}
 
 
 def cases(tier, seed):
-    n = 48 if tier == "quick" else 1200
+    n = 48 if tier == "quick" else 5000
     rng = random.Random(seed + 900)
     cs = []
     for i in range(n):
